@@ -1,7 +1,7 @@
 (* C01 — lemmas. *)
 From Coq Require Import List NArith Bool String Ascii Arith Lia ZifyBool ZifyN ZifyNat.
 From Dae Require Import C01_Spec C01_Model.
-From Dae.gen Require Import C01_Consts.
+From Dae.gen Require Import C01_Consts C01_Patch.
 From Dae.common Require RuleScan.
 Import ListNotations.
 Open Scope N_scope.
@@ -725,6 +725,25 @@ Proof.
     intros v x Hv Hx. destruct v; try discriminate Hv. cbn in Hx. inversion Hx; subst. cbn [value_holds]. apply N.eqb_sym.
 Qed.
 
+(* --- the extracted strip operation is the exact removal of the prefix "must_" --- *)
+
+Lemma substring_all : forall s, substring 0 (String.length s) s = s.
+Proof. induction s as [|c s IH]; cbn; [reflexivity|]. now rewrite IH. Qed.
+
+Lemma skip5_strip_must s : prefix "must_" s = true -> skip 5 s = strip_must s.
+Proof.
+  intros H. unfold strip_must.
+  destruct s as [|c1 [|c2 [|c3 [|c4 [|c5 r]]]]]; cbn in H;
+    repeat match type of H with (if ?c then _ else _) = true => destruct c; try discriminate H end; try discriminate H.
+  cbn [String.length skip]. replace (S (S (S (S (S (String.length r))))) - 5)%nat with (String.length r) by lia.
+  cbn [substring]. now rewrite substring_all.
+Qed.
+
+Lemma strip_rule_exact s : prefix "must_" s = true -> apply_strip patch_rule_strip_op patch_rule_strip_arg s = strip_must s.
+Proof. intros H. unfold apply_strip, patch_rule_strip_op, patch_rule_strip_arg. rewrite H. now apply skip5_strip_must. Qed.
+Lemma strip_fallback_exact s : prefix "must_" s = true -> apply_strip patch_fallback_strip_op patch_fallback_strip_arg s = strip_must s.
+Proof. intros H. unfold apply_strip, patch_fallback_strip_op, patch_fallback_strip_arg. rewrite H. now apply skip5_strip_must. Qed.
+
 (* --- outbounds: patchMustOutbound + ParseOutbound + outboundToId --- *)
 
 Lemma parse_outbound_params_spec ps mk mu :
@@ -774,7 +793,7 @@ Proof.
     destruct (outbound_to_id_group _ _ Hg El) as [Hid Hlt]. exists id.
     unfold patch_rule_outbound, out_group, out_must, out_mark, has_must_prefix in *. unfold is_must_rules in Em.
     destruct (prefix "must_" (o_name o)) eqn:Ep.
-    + rewrite Em. unfold parse_outbound. cbn [o_name o_params]. rewrite parse_outbound_params_spec. cbn [po_name po_mark po_must].
+    + rewrite Em, (strip_rule_exact _ Ep). unfold parse_outbound. cbn [o_name o_params]. rewrite parse_outbound_params_spec. cbn [po_name po_mark po_must].
       unfold gid. rewrite El. repeat split; auto.
       * now rewrite fold_left_app.
       * rewrite existsb_app. cbn. now rewrite orb_true_r.
@@ -792,7 +811,7 @@ Proof.
   destruct (outbound_to_id_group _ _ Hg El) as [Hid Hlt]. exists id.
   unfold patch_fallback, out_group, out_must, out_mark, has_must_prefix in *.
   destruct (prefix "must_" (o_name o)) eqn:Ep.
-  - unfold parse_outbound. cbn [o_name o_params]. rewrite parse_outbound_params_spec. cbn [po_name po_mark po_must].
+  - rewrite (strip_fallback_exact _ Ep). unfold parse_outbound. cbn [o_name o_params]. rewrite parse_outbound_params_spec. cbn [po_name po_mark po_must].
     unfold gid. rewrite El. repeat split; auto.
     + now rewrite fold_left_app.
     + rewrite existsb_app. cbn. now rewrite orb_true_r.
@@ -1123,6 +1142,28 @@ Proof.
   destruct is4; cbn [orb].
   - rewrite (H4 eq_refl). reflexivity.
   - destruct (N.shiftr (p_dst pk) 32 =? 0xffff); reflexivity.
+Qed.
+
+Lemma C01_must_patch_exact_proof :
+  (forall n : string, patch_name (String.append "must_" n) = (n, true)) /\
+  (forall s : string, prefix "must_" s = false -> patch_name s = (s, false)) /\
+  patch_has_prefix_arg = "must_"%string /\
+  (forall n : string, apply_strip patch_fallback_strip_op patch_fallback_strip_arg (String.append "must_" n) = n).
+Proof.
+  split; [|split; [|split]].
+  - intros n. unfold patch_name, patch_name_with, apply_strip, patch_rule_strip_op, patch_rule_strip_arg. cbn. destruct n; reflexivity.
+  - intros s H. unfold patch_name, patch_name_with. now rewrite H.
+  - reflexivity.
+  - intros n. unfold apply_strip, patch_fallback_strip_op, patch_fallback_strip_arg. cbn. destruct n; reflexivity.
+Qed.
+
+(* what strings.TrimLeft(name, "must_") would do instead: group us_proxy becomes proxy, steam becomes eam *)
+Lemma C01_must_patch_trimleft_refuted_proof :
+  (exists n : string, patch_name_with StripTrimLeft "must_" (String.append "must_" n) <> (n, true)) /\
+  patch_name_with StripTrimLeft "must_" "must_us_proxy" = ("proxy"%string, true) /\
+  patch_name_with StripTrimLeft "must_" "must_steam" = ("eam"%string, true).
+Proof.
+  split; [|split; reflexivity]. exists "us_proxy"%string. vm_compute. intro H. discriminate H.
 Qed.
 
 Lemma C01_negated_mac_zero_proof (c : cond) (pk : packet) :
